@@ -53,13 +53,14 @@ static std::string cfg_json(const GCfg &c) { return "\"cfg\": \"" + c.name + "\"
 
 struct Stats : public RayStats {
   uint64_t positions = 0, ngb = 0, evals = 0;
-  uint64_t near_face = 0, out_of_range = 0;
+  uint64_t near_face = 0, out_of_range = 0, skipped_inface = 0;
   void merge(const Stats &o) {
     positions += o.positions;
     ngb += o.ngb;
     evals += o.evals;
     near_face += o.near_face;
     out_of_range += o.out_of_range;
+    skipped_inface += o.skipped_inface;
     merge_rays(o);
   }
 };
@@ -413,13 +414,19 @@ static void rays_for(const GCfg &cfg, int per, int field, bool thorough, long se
   ++st.evals;
   // start lattice: faces and centres (+ an off-centre point in the thorough tier)
   std::vector< double > L[3];
+  std::vector< char > Lface[3];
+  const bool offcentre = thorough && N <= 27;
   for (int d = 0; d < 3; ++d) {
     const double side = cfg.S[d] / cfg.n[d];
     for (int i = 0; i < cfg.n[d]; ++i) {
       L[d].push_back(cfg.A[d] + side * i);
+      Lface[d].push_back(1);
       L[d].push_back(cfg.A[d] + side * i + 0.5 * side);
-      if (thorough)
+      Lface[d].push_back(0);
+      if (offcentre) {
         L[d].push_back(cfg.A[d] + side * i + 0.3125 * side);
+        Lface[d].push_back(0);
+      }
     }
   }
   std::vector< std::array< double, 3 > > dirs;
@@ -443,12 +450,21 @@ static void rays_for(const GCfg &cfg, int per, int field, bool thorough, long se
   const double tau_ref = 1.; // = base * minside
   auto kfun = [&](long id) -> Q { return kap[id]; };
   int failures = 0;
-  for (double x : L[0])
-    for (double y : L[1])
-      for (double z : L[2]) {
+  for (size_t i0 = 0; i0 < L[0].size(); ++i0)
+    for (size_t i1 = 0; i1 < L[1].size(); ++i1)
+      for (size_t i2 = 0; i2 < L[2].size(); ++i2) {
+        const double x = L[0][i0], y = L[1][i1], z = L[2][i2];
+        const bool onface[3] = {Lface[0][i0] != 0, Lface[1][i1] != 0, Lface[2][i2] != 0};
         if (R.out_of_time())
           return;
         for (auto &dv : dirs) {
+          // non-dyadic boxes: a face coordinate is a rounded number and the
+          // position query may put it in either adjacent cell; a ray that stays
+          // in that face plane is a tie between the two cells and not compared
+          if (!cfg.dyadic && ((onface[0] && dv[0] == 0.) || (onface[1] && dv[1] == 0.) || (onface[2] && dv[2] == 0.))) {
+            ++st.skipped_inface;
+            continue;
+          }
           RayCase rc;
           rc.p[0] = x, rc.p[1] = y, rc.p[2] = z;
           for (int d = 0; d < 3; ++d)
@@ -567,6 +583,8 @@ int main(int argc, char **argv) {
       for (int field = 0; field < 4; ++field) {
         if (field == 3 && per != 0)
           continue;
+        if (th && field == 0 && per != 0 && per != 7)
+          continue;
         if (!th) {
           // quick tier: uniform field only without periodic faces; the strongly
           // varying field and the non-dyadic boxes only for selected flags
@@ -615,6 +633,7 @@ int main(int argc, char **argv) {
   R.set("rays_with_target_depth_on_a_wall_(either_outcome_accepted)", (double)ST.ties);
   R.set("positions_on_a_rounded_face_of_a_nondyadic_box", (double)ST.near_face);
   R.set("positions_with_an_out_of_range_cell_index", (double)ST.out_of_range);
+  R.set("rays_in_a_face_plane_of_a_nondyadic_box_not_compared", (double)ST.skipped_inface);
   R.set("tolerance_k", 2.);
   R.set("deposit_comparisons", (double)ST.t_path.n);
   R.set("deposit_within_10x_of_tolerance", (double)ST.t_path.near);
@@ -629,6 +648,7 @@ int main(int argc, char **argv) {
   R.assumptions.push_back("rays that never leave (all travelled axes periodic) are only traced with a finite target depth in "
                           "positive-density fields; integrate_optical_depth is only called on rays with a component along a "
                           "non-periodic axis (it does not terminate otherwise)");
+  R.assumptions.push_back("non-dyadic boxes: rays lying in the plane of a (rounded) cell face are ties between the adjacent cells and not compared");
   R.assumptions.push_back("cells with zero density accumulate no path (DensityGrid::update_integrals skips them); field 3 "
                           "checks this and is only traced without periodic faces");
   R.assumptions.push_back("tolerances (k=2): ray parameter k eps (steps+2)(max|coordinate|/min|direction component| + total path); optical "
